@@ -11,7 +11,7 @@ def run(chk):
     tabs, problems = lib.regenerate()
     pr = X.standard_proof(chk, "C04", thorough)
     ndocs = 2500 if thorough else 400
-    docs = X.gen_docs(rng, ndocs, styles=2 if thorough else 1)
+    docs = X.boundary_docs() + X.gen_docs(rng, ndocs, styles=2 if thorough else 1)
     texts = []
     for d, rs in docs:
         texts += rs
